@@ -43,6 +43,8 @@ for d in sorted(glob.glob("/verif/seeded/C??-?")):
     pid, x = sid.split("-")
     agent = {}
     ap = "/tmp/mut-%s/SEED/meta.json" % pid.lower()
+    if x == "C":
+        ap = "/tmp/mut-%s/SEED/metaC.json" % pid.lower()
     if os.path.exists(ap):
         try:
             am = json.load(open(ap))
